@@ -1,3 +1,492 @@
 package main
 
-func cmdCheck(args []string) int { return 2 }
+// `walvc check --property Cnn --tier quick|thorough`: the registered check.
+
+import (
+	"encoding/json"
+	"flag"
+	"fmt"
+	"os"
+	"path/filepath"
+	"sort"
+	"strconv"
+	"strings"
+	"time"
+)
+
+type Finding struct {
+	Kind       string // finding | fixed
+	Property   string
+	Obligation string // exact obligation name (finding)
+	Site       string // optional site restriction
+	Text       string
+}
+
+func loadFindings(path string) []Finding {
+	data, err := os.ReadFile(path)
+	if err != nil {
+		return nil
+	}
+	var fs []Finding
+	for _, line := range strings.Split(string(data), "\n") {
+		line = strings.TrimSpace(line)
+		if line == "" || strings.HasPrefix(line, "#") {
+			continue
+		}
+		var f Finding
+		switch {
+		case strings.HasPrefix(line, "finding:"):
+			f.Kind = "finding"
+			line = strings.TrimSpace(line[len("finding:"):])
+		case strings.HasPrefix(line, "fixed:"):
+			f.Kind = "fixed"
+			line = strings.TrimSpace(line[len("fixed:"):])
+		default:
+			continue
+		}
+		parts := strings.SplitN(line, "::", 2)
+		if len(parts) == 2 {
+			f.Text = strings.TrimSpace(parts[1])
+		}
+		for _, kv := range strings.Fields(parts[0]) {
+			if i := strings.Index(kv, "="); i > 0 {
+				k, v := kv[:i], kv[i+1:]
+				switch k {
+				case "property":
+					f.Property = v
+				case "obligation":
+					f.Obligation = v
+				case "site":
+					f.Site = v
+				}
+			}
+		}
+		if f.Kind == "fixed" && f.Text == "" {
+			f.Text = parts[0]
+		}
+		fs = append(fs, f)
+	}
+	return fs
+}
+
+func hasPropLabel(labels []string, prop string) bool {
+	for _, l := range labels {
+		if l == prop || strings.HasPrefix(l, prop+".") {
+			return true
+		}
+	}
+	return false
+}
+
+func contains(ss []string, s string) bool {
+	for _, x := range ss {
+		if x == s {
+			return true
+		}
+	}
+	return false
+}
+
+// unitsForProperty: every unit whose contract lists the property in `props`
+// or carries a clause labelled with it.
+func (p *Prog) unitsForProperty(prop string) []string {
+	var us []string
+	for k, c := range p.contracts.Funcs {
+		if c.IsIface || c.Trusted != "" || c.NoVerify {
+			continue
+		}
+		in := contains(c.Props, prop)
+		if !in {
+			for _, cl := range c.Ensures {
+				if hasPropLabel(cl.Labels, prop) {
+					in = true
+				}
+			}
+			for _, sc := range c.Sites {
+				if hasPropLabel(sc.Clause.Labels, prop) {
+					in = true
+				}
+			}
+			for _, cl := range c.AllocBound {
+				if hasPropLabel(cl.Labels, prop) {
+					in = true
+				}
+			}
+		}
+		if in {
+			us = append(us, k)
+		}
+	}
+	sort.Strings(us)
+	return us
+}
+
+// relevant reports whether a failed obligation counts against prop.
+func relevant(o *Obl, c *Contract, prop string) bool {
+	if len(o.Labels) > 0 {
+		return hasPropLabel(o.Labels, prop)
+	}
+	if c == nil {
+		return true
+	}
+	return contains(c.Props, prop)
+}
+
+type sample struct {
+	Obligation string `json:"obligation"`
+	Kind       string `json:"kind"`
+	Status     string `json:"status"`
+	Backend    string `json:"backend"`
+	Ms         int64  `json:"ms"`
+	SMTBytes   int    `json:"smt_bytes"`
+	Where      string `json:"where,omitempty"`
+}
+
+func cmdCheck(args []string) int {
+	fs := flag.NewFlagSet("check", flag.ExitOnError)
+	prop := fs.String("property", "", "property id")
+	tier := fs.String("tier", "", "quick|thorough")
+	fs.Parse(args)
+	if *tier == "" {
+		*tier = os.Getenv("VERIF_TIER")
+	}
+	if *tier == "" {
+		*tier = "quick"
+	}
+	seed := 0
+	if s := os.Getenv("VERIF_SEED"); s != "" {
+		seed, _ = strconv.Atoi(s)
+	}
+	start := time.Now()
+	p, err := LoadProgram()
+	if err != nil {
+		fmt.Println("UNDECIDED tool-error:", err)
+		return 2
+	}
+	res := p.CheckProperty(*prop, *tier, seed)
+	res.WallS = time.Since(start).Seconds()
+	res.writeEvidence()
+	for _, l := range res.Lines {
+		fmt.Println(l)
+	}
+	fmt.Printf("property=%s tier=%s units=%d obligations=%d discharged=%d trivial-safety=%d known-findings=%d violations=%d undecided=%d wall=%.1fs\n",
+		*prop, *tier, len(res.Units), res.NObl, res.NDischarged, res.NTrivial, res.NKnown, res.NViol, res.NUndecided, res.WallS)
+	if res.NViol > 0 {
+		return 1
+	}
+	if res.NUndecided > 0 || res.Broken != "" {
+		if res.Broken != "" {
+			fmt.Println("UNDECIDED", res.Broken)
+		}
+		return 2
+	}
+	return 0
+}
+
+type CheckResult struct {
+	Prop        string
+	Tier        string
+	Seed        int
+	Units       []string
+	NObl        int
+	NDischarged int
+	NTrivial    int
+	NKnown      int
+	NViol       int
+	NUndecided  int
+	Broken      string
+	Lines       []string
+	Samples     []sample
+	Backends    map[string]int
+	SolverMs    int64
+	Trusted     map[string]bool
+	Assumed     map[string]bool
+	Inlined     map[string]bool
+	Unspec      map[string]bool
+	Bounded     map[string]bool
+	NoInv       map[string]bool
+	OutOfSubset map[string]bool
+	KnownHit    []string
+	DeadReturns []string
+	Failed      []*Obl
+	WallS       float64
+	Extra       map[string]interface{}
+	Lemmas      int
+	Statics     []string
+}
+
+func (p *Prog) CheckProperty(prop, tier string, seed int) *CheckResult {
+	res := &CheckResult{Prop: prop, Tier: tier, Seed: seed, Backends: map[string]int{}, Trusted: map[string]bool{}, Assumed: map[string]bool{}, Inlined: map[string]bool{}, Unspec: map[string]bool{}, Bounded: map[string]bool{}, NoInv: map[string]bool{}, OutOfSubset: map[string]bool{}, Extra: map[string]interface{}{}}
+	units := p.unitsForProperty(prop)
+	res.Units = units
+	timeout := 10000
+	all := false
+	if tier == "thorough" {
+		timeout = 60000
+		all = true
+	}
+	var obls []*Obl
+	unitOf := map[*Obl]*Contract{}
+	for _, u := range units {
+		r := p.RunUnit(u)
+		if r.Missing {
+			res.Lines = append(res.Lines, fmt.Sprintf("UNDECIDED target-missing %s", u))
+			res.NUndecided++
+			continue
+		}
+		c := p.contracts.Funcs[u]
+		for _, m := range r.Unsup {
+			res.OutOfSubset[u+": "+m] = true
+		}
+		if len(r.CErrs) > 0 {
+			res.Broken = fmt.Sprintf("contract-error in %s: %s", u, strings.Join(r.CErrs, "; "))
+		}
+		e := r.Exec
+		res.NTrivial += e.ntrivial
+		for k := range e.intrUsed {
+			res.Trusted[k] = true
+		}
+		for k := range e.byContr {
+			res.Assumed[k] = true
+		}
+		for k := range e.inlined {
+			res.Inlined[k] = true
+		}
+		for k := range e.unspec {
+			res.Unspec[k] = true
+		}
+		for k := range e.boundedLoops {
+			res.Bounded[k] = true
+		}
+		for k := range e.noInvLoops {
+			res.NoInv[k] = true
+		}
+		for _, o := range r.Obls {
+			unitOf[o] = c
+			obls = append(obls, o)
+		}
+	}
+	// lemmas
+	lobls := p.lemmaObligations(prop)
+	res.Lemmas = len(lobls)
+	obls = append(obls, lobls...)
+	// static checks (e.g. metric names): produce pre-decided obligations
+	sobls, snotes := p.staticObligations(prop)
+	obls = append(obls, sobls...)
+	res.Statics = snotes
+
+	work := filepath.Join(verifDir, "work", prop+"-"+tier)
+	os.RemoveAll(work)
+	SolveAll(obls, work, timeout, all)
+	os.RemoveAll(work)
+
+	findings := loadFindings(filepath.Join(verifDir, "known_findings.txt"))
+	// group covers
+	coverOK := map[string]bool{}
+	coverSeen := map[string]bool{}
+	for _, o := range obls {
+		if o.Expect == "sat" {
+			coverSeen[o.Name] = true
+			if o.Status == "covered" {
+				coverOK[o.Name] = true
+			}
+		}
+	}
+	unitReturnCovered := map[string]bool{}
+	for n := range coverSeen {
+		i := strings.Index(n, "/cover:")
+		unit := n[:i]
+		if strings.HasSuffix(n, "/cover:requires-satisfiable") {
+			if !coverOK[n] {
+				res.Broken = "vacuous precondition: " + n
+			}
+			continue
+		}
+		if coverOK[n] {
+			unitReturnCovered[unit] = true
+		} else {
+			res.DeadReturns = append(res.DeadReturns, n)
+		}
+	}
+	for _, u := range units {
+		if fn := p.funcs[u]; fn != nil && !unitReturnCovered[u] {
+			// a unit none of whose returns is reachable under its precondition is vacuous
+			hasRet := false
+			for n := range coverSeen {
+				if strings.HasPrefix(n, u+"/cover:return") {
+					hasRet = true
+				}
+			}
+			if hasRet {
+				res.Broken = "no reachable return in " + u
+			}
+		}
+	}
+	sort.Strings(res.DeadReturns)
+	reported := map[string]bool{}
+	for _, o := range obls {
+		if o.Expect == "sat" {
+			continue
+		}
+		c := unitOf[o]
+		if !relevant(o, c, prop) && o.Status != "proved" {
+			// failure belongs to another property's check
+			continue
+		}
+		if !relevant(o, c, prop) {
+			// proved obligation labelled for another property only: still supports this unit; count it
+		}
+		res.NObl++
+		if o.Backend != "" {
+			res.Backends[o.Backend]++
+		}
+		res.SolverMs += o.Ms
+		if o.Status == "proved" {
+			res.NDischarged++
+			if len(res.Samples) < 12 && o.Backend != "syntactic" && (len(o.Labels) > 0 || len(res.Samples) < 4) {
+				res.Samples = append(res.Samples, sample{o.Name, o.Kind, o.Status, o.Backend, o.Ms, len(o.Query), o.Where})
+			}
+			continue
+		}
+		// failed: known finding?
+		known := false
+		for _, f := range findings {
+			if f.Kind == "finding" && f.Property == prop && f.Obligation == o.Name && (f.Site == "" || f.Site == o.Site) {
+				known = true
+				res.NObl-- // not claimed
+				key := f.Obligation + "@" + f.Site
+				if !reported[key] {
+					reported[key] = true
+					res.NKnown++
+					res.KnownHit = append(res.KnownHit, f.Obligation+" "+f.Site)
+					res.Lines = append(res.Lines, fmt.Sprintf("KNOWN-FINDING: property=%s %s %s -- %s", prop, f.Obligation, f.Site, f.Text))
+				}
+				break
+			}
+		}
+		if known {
+			continue
+		}
+		res.Failed = append(res.Failed, o)
+		key := o.Name + "@" + o.Site
+		if reported[key] {
+			continue
+		}
+		reported[key] = true
+		res.NViol++
+		path, confirmed := p.replay(o, prop)
+		line := fmt.Sprintf("VIOLATION property=%s replay=%s", prop, path)
+		if !confirmed {
+			line += " no-failing-input-found"
+		}
+		res.Lines = append(res.Lines, line)
+		res.Lines = append(res.Lines, fmt.Sprintf("  failed obligation: %s (%s, %s) at %s", o.Name, o.Status, o.Backend, o.Where))
+	}
+	for k := range res.OutOfSubset {
+		res.Lines = append(res.Lines, "UNDECIDED out-of-subset "+k)
+		res.NUndecided++
+	}
+	if res.NObl == 0 && res.NViol == 0 {
+		res.Broken = "no obligations generated for " + prop
+	}
+	return res
+}
+
+func keys(m map[string]bool) []string {
+	ks := []string{}
+	for k := range m {
+		ks = append(ks, k)
+	}
+	sort.Strings(ks)
+	return ks
+}
+
+func (r *CheckResult) writeEvidence() {
+	trusted := []string{
+		"go/types + go/ssa front end (golang.org/x/tools v0.29.0, vendored) producing the SSA that is symbolically executed",
+		"walvc VC generator (/verif/vc): encoding of Go semantics into SMT-LIB (machine integers as bit-vectors, slices as arrays+base/len/cap)",
+		"SMT solvers z3 4.8.12, z3-new 5.1.0, cvc5 1.0 (first definitive answer wins; thorough tier cross-checks all three)",
+	}
+	for _, k := range keys(r.Trusted) {
+		trusted = append(trusted, "assumed dependency contract (intrinsic): "+k)
+	}
+	assumptions := []string{
+		"sequential semantics: goroutines, mutexes and channel blocking are not modelled; sync/atomic operations are sequentially consistent loads/stores",
+		"no aliasing between distinct pointer/slice parameters or between distinct heap fields in the pre-state; slices returned across a contract boundary are treated as fresh regions whose contents above len() are never relied upon",
+		"pre-state slices are shorter than 2^40 elements; machine integers are exact fixed-width bit-vectors (nothing is treated as mathematical)",
+		"package-level error sentinels are never reassigned; package-level variables that no repository code stores to keep their zero value",
+		"partial correctness unless a `decreases` clause is listed for the loop",
+	}
+	for _, k := range keys(r.Unspec) {
+		assumptions = append(assumptions, "call without contract or body treated as pure with an arbitrary result: "+k)
+	}
+	for _, k := range keys(r.NoInv) {
+		assumptions = append(assumptions, "loop without invariant (treated with invariant `true`): "+k)
+	}
+	for _, a := range propertyAssumptions[r.Prop] {
+		assumptions = append(assumptions, a)
+	}
+	cov := map[string]interface{}{
+		"obligations":               r.NObl,
+		"discharged":                r.NDischarged,
+		"checker_cmd":               fmt.Sprintf("/verif/bin/walvc check --property %s --tier %s", r.Prop, r.Tier),
+		"trusted_base":              trusted,
+		"functions_under_contract":  r.Units,
+		"callee_contracts_used":     keys(r.Assumed),
+		"inlined_callees":           keys(r.Inlined),
+		"trivial_safety_checks":     r.NTrivial,
+		"backends":                  r.Backends,
+		"solver_ms_total":           r.SolverMs,
+		"bounded":                   keys(r.Bounded),
+		"out_of_subset":             keys(r.OutOfSubset),
+		"known_findings_hit":        r.KnownHit,
+		"unreachable_returns":       r.DeadReturns,
+		"lemmas":                    r.Lemmas,
+		"static_checks":             r.Statics,
+		"samples":                   r.Samples,
+		"integers":                  "64/32/16/8-bit bit-vectors with Go wrap-around semantics",
+		"contract_files":            "comment-only //@ clauses in /repo/<pkg>/contracts_verif.go (build tag verif)",
+	}
+	for k, v := range r.Extra {
+		cov[k] = v
+	}
+	if len(r.Samples) == 0 {
+		cov["samples"] = []string{"(no solver-discharged obligation in this run)"}
+	}
+	ev := map[string]interface{}{
+		"property_id": r.Prop,
+		"tier":        r.Tier,
+		"seed":        r.Seed,
+		"level":       "proof",
+		"coverage":    cov,
+		"assumptions": assumptions,
+		"wall_s":      r.WallS,
+		"violations":  r.NViol,
+	}
+	os.MkdirAll(filepath.Join(verifDir, "evidence"), 0755)
+	data, _ := json.MarshalIndent(ev, "", " ")
+	os.WriteFile(filepath.Join(verifDir, "evidence", r.Prop+".json"), data, 0644)
+}
+
+// propertyAssumptions: paper arguments / uncovered conjuncts per property
+// (repeated in every evidence file).
+var propertyAssumptions = map[string][]string{}
+
+// replay writes the replay artefact of a failed obligation and tries to
+// reproduce the failure on the real code.
+func (p *Prog) replay(o *Obl, prop string) (string, bool) {
+	dir := filepath.Join(verifDir, "replays")
+	os.MkdirAll(dir, 0755)
+	base := sanitize(strings.NewReplacer("/", "_", "(", "", ")", "", "*", "", "[", "_", "]", "", ",", "_", ":", "_").Replace(o.Name))
+	if path, ok := p.tryConcreteReplay(o, prop, dir, base); ok {
+		return path, true
+	}
+	path := filepath.Join(dir, base+".txt")
+	var b strings.Builder
+	fmt.Fprintf(&b, "failed obligation: %s\nproperty: %s\nkind: %s\nstatus: %s (backend %s, %d ms)\nwhere: %s\npath: %s\n", o.Name, prop, o.Kind, o.Status, o.Backend, o.Ms, o.Where, o.Path)
+	fmt.Fprintf(&b, "\nThis obligation is discharged on the pinned tree and no longer is.\n")
+	fmt.Fprintf(&b, "\n--- solver output / model ---\n%s\n", o.Model)
+	fmt.Fprintf(&b, "\n--- SMT-LIB query (unsat = obligation holds) ---\n%s\n", o.Query)
+	os.WriteFile(path, []byte(b.String()), 0644)
+	return path, false
+}
